@@ -81,6 +81,8 @@ class World:
 
     def source(self, fname, args=None):
         L = ["from inline_snapshot import snapshot, outsource, external", "from inline_snapshot import external as ext", "", "", "def _boom(x):", "    raise RuntimeError('bug in the code under test')", ""]
+        if fname in getattr(self, "unimportable", ()):
+            L.insert(0, "import module_that_does_not_exist  # the file cannot be imported at the moment")
         for name, t in self.files[fname].items():
             p, sfx = t["payload"]
             if t.get("broken"):
@@ -138,6 +140,7 @@ def matches(ref, name):
 
 SCRIPTS = [
     (12, [("none", "create"), ("break_test", "trim"), ("none", "none")]),
+    (12, [("none", "create"), ("break_import", "trim"), ("repair_import", "none"), ("none", "disable")]),
     (12, [("none", "create"), ("alias_reference", "trim"), ("none", "none"), ("none", "disable")]),
     (12, [("add_helper_check", "create"), ("none", "trim"), ("none", "none"), ("none", "disable")]),
     (12, [("none", "create"), ("same_bytes_other_suffix", "create"), ("none", "none"), ("none", "disable")]),
@@ -172,7 +175,7 @@ def run_history(rng, args, out, C, hidx, script=None):
         proj.write({"pyproject.toml": "\n".join(pp) + "\n"})
         steps = []
         for step in range(len(script[1]) if script else rng.randint(4, 8)):
-            edit = rng.choice(["none", "change_data", "change_data", "add_test", "remove_test", "add_file", "equal_payloads", "change_hash_length", "shorten_reference", "break_test", "same_bytes_other_suffix", "alias_reference", "add_helper_check"]) if step else "none"
+            edit = rng.choice(["none", "change_data", "change_data", "add_test", "remove_test", "add_file", "equal_payloads", "change_hash_length", "shorten_reference", "break_test", "same_bytes_other_suffix", "alias_reference", "add_helper_check", "break_import", "repair_import"]) if step else "none"
             forced_len = None
             if script:
                 edit, forced_flag = script[1][step]
@@ -194,6 +197,12 @@ def run_history(rng, args, out, C, hidx, script=None):
             elif edit == "equal_payloads" and len(fnames) > 1:
                 src_t = rng.choice(list(w.files["test_a.py"].values()))
                 w.add_test("test_b.py", payload=src_t["payload"])
+            elif edit == "break_import":
+                # a collection error: the file takes part in the session, none of its tests is executed
+                w.unimportable = getattr(w, "unimportable", set()) | {f0 if f0 != HELPER else "test_a.py"}
+                C["unimportable_file_steps"] = C.get("unimportable_file_steps", 0) + 1
+            elif edit == "repair_import":
+                w.unimportable = set()
             elif edit == "add_helper_check":
                 w.add_test(HELPER)
                 C["helper_module_steps"] = C.get("helper_module_steps", 0) + 1
